@@ -1,12 +1,26 @@
-"""Per-property registration used to generate MANIFEST.json."""
+"""Per-property registration used to generate MANIFEST.json.
+
+The level text of a check is the docstring of its rule module (``sa/props/cNN.py``): it says
+which clauses are decided statically and which are not.
+"""
+
+from __future__ import annotations
+
+import ast
+import os
+
+HERE = os.path.dirname(os.path.abspath(__file__))
+
+FIX_COMMITS = [
+    "b5ac1f3", "1edb1d6", "0e297eb", "e993b9c", "2be54ad", "7377f47", "ca6c519", "fab3d50", "1810991", "3594a47", "81ad9a8", "d90c18a",
+    "f793bf7", "e68f70f", "3631110", "b149875", "f116732", "f37d660", "23b89ea", "4d080bb", "a4b0e12", "d07d7fe",
+]
 
 HOOKS = {
     "guard": "PALLETS_JINJA_VERIF",
     "enable": "no hooks: the checks only read /repo/src/jinja2 (ast); the guard name is declared but unused",
     "baseline_off_cmd": "cd /repo && /venv/bin/python -m pytest -ra -q -p no:cacheprovider --timeout=900 --continue-on-collection-errors",
-    "source_commits": [
-        "b5ac1f3", "1edb1d6", "0e297eb", "e993b9c", "2be54ad", "7377f47", "ca6c519", "fab3d50", "1810991", "3594a47", "81ad9a8", "d90c18a",
-    ],
+    "source_commits": FIX_COMMITS,
     "add_only": True,
 }
 
@@ -14,59 +28,72 @@ NOTES = (
     "Static analysis only: every check parses /repo/src/jinja2 from the working tree on each run and decides "
     "structural clauses that are necessary conditions of the property; see DESIGN.md for what each check does "
     "and does not decide. Exit 2 + ANALYSIS-ERROR means the analyser lost an anchor; it is never a verdict. "
-    "hooks.source_commits lists the unguarded 'fix:' commits (genuine defect repairs); there are no instrumentation hooks."
+    "hooks.source_commits lists the unguarded 'fix:' commits (genuine defect repairs, also recorded in "
+    "known_findings.json); there are no instrumentation hooks."
 )
 
-_NOTE = "trusted: CPython's ast / re._parser, the reviewed rule tables in /verif/sa; assumes the parsed files are what is imported; decides structural clauses only, not runtime values"
+_NOTE = (
+    "trusted: CPython's ast / re._parser, the reviewed rule tables in /verif/sa; assumes the parsed files are what is imported; "
+    "decides structural clauses only (necessary conditions), not runtime values; digest-keyed cache of the emission model under /verif/.cache"
+)
 
-
-def _p(text: str, technique: str) -> dict:
-    return {"claimed": True, "text": text, "technique": technique, "note": _NOTE}
-
-
-PROPS = {
-    "C01": _p(
-        "Decides the structural part of compile totality: dispatch closure (keywords, lexer states, token vocabulary, statement arms), classification of every raise on the compile path, guarded literal conversions, parser-side uniqueness obligations of emitted defs/calls, recursion guards, and that every code-generator skeleton (all flag valuations) parses as Python. Not decided: CPython accepting every instantiated skeleton, regex running time.",
-        "table agreement + raise inventory + regex structure (re._parser) + abstract interpretation of the code generator (skeletons parsed with ast)",
-    ),
-    "C02": _p(
-        "Decides the precedence chain of the expression parser, agreement of the operator tables across lexer/parser/nodes/compiler/sandbox, the attribute-vs-item lookup order and the result name of compile_expression. Not decided: values of expressions.",
-        "call-graph shape of the recursive-descent levels + table agreement across five modules",
-    ),
-    "C08": _p(
-        "Decides that fold failures are deferred (except Exception -> Impossible around every computing as_const), that eval-context dependent nodes refuse under volatile and follow autoescape, that compiler fold sites are volatile-guarded and that only literal-evaluable values are folded (has_safe_repr recursion). Not decided: value equality of folded vs unfolded evaluation.",
-        "handler-coverage and guard-dominance rules over nodes.as_const / compiler fold sites",
-    ),
-    "C13": _p(
-        "Decides positional/keyword line-up of Template.__new__, overlay and babel_extract with Environment.__init__, completeness of the lexer cache key, delimiter ordering in compile_rules and overlay isolation. Not decided: equality of rendered output.",
-        "signature/table agreement + def-use of environment attributes in the lexer construction",
-    ),
-    "C19": _p(
-        "Decides by simulating _mutable_spec through the lookup loop that every public mutating method of list/dict/set/deque is blocked, that ImmutableSandboxedEnvironment.is_safe_attribute is super() AND NOT modifies_known_mutable (truth table), and that no filter/test mutates caller-owned data (effect flow). Not decided: mutation through callables supplied by the data.",
-        "table simulation against the interpreter's container method sets + effect/alias flow analysis",
-    ),
-    "C21": _p(
-        "Decides the operation table of the five undefined classes by resolving every protocol method through class-body aliases and the MRO; both operand orders of all template operators fail; sync/async iteration agree; message branches name the variable. Not decided: message text, pickle/copy round trips.",
-        "class-table resolution (aliases + MRO) compared with the documented operation table",
-    ),
-    "C23": _p(
-        "Decides that int/float conversions are covered by handlers for {TypeError, ValueError, OverflowError} reaching `return default`, input coercion of string filters, and truncate's length accounting as linear inequalities. Not decided: wrapping/rounding/truncation arithmetic over all inputs.",
-        "handler-coverage path rule + linear normal form of length expressions",
-    ),
-    "C25": _p(
-        "Decides the cache-hit path condition of _load_template as a truth table, the cache key, store-after-load, uptodate closures failing closed, and the size mapping of create_cache. Not decided: histories, eviction order.",
-        "guard truth-table + closure shape rules",
-    ),
-    "C26": _p(
-        "Decides lock discipline (all accesses to shared state inside the lock in mutating methods, aliases resolved), the shape of the locked primitives, orientation consistency and pickle/copy state coverage. Not decided: equivalence with a reference LRU, linearizability.",
-        "lock-discipline (who-may-access under which lock) + typestate shape rules",
-    ),
-    "C27": _p(
-        "Decides handler coverage of deserialisation, the acceptance path condition (code assigned only after magic and checksum matched), environment-dependence of the bucket identity (def-use), temp-file/replace/cleanup discipline of the file-system writer, magic contents and memcached error policy. Not decided: file-system crash points, histories.",
-        "CFG path rules (guard dominance, must-pass-through) + def-use slice",
-    ),
-    "C28": _p(
-        "Decides that every file-access sink in loaders receives a path that flowed through split_template_path, that this function rejects separators and parent references, posixpath joins from the search root, and sibling agreement of Choice/Prefix loaders. Not decided: symlinks / file-system behaviour.",
-        "taint flow from the template name to file sinks + sibling comparison",
-    ),
+TECHNIQUE = {
+    "C01": "table agreement + raise inventory + regex structure (re._parser) + abstract interpretation of the code generator (every skeleton parsed with ast)",
+    "C02": "call-graph shape of the recursive-descent levels + operator table agreement across five modules",
+    "C03": "field-coverage and scope-boundary agreement between compiler and symbol analysis + frame typestate on emission-model paths + ownership rule on Symbols",
+    "C04": "AST queries on the skeletons of visit_Block/visit_Output/visit_Template + stack-orientation agreement",
+    "C05": "skeleton rules (try shape, context-flag mapping, yield discipline, export pairing) + effect flow on new_context",
+    "C06": "calling-convention agreement between macro_body/macro_def and Macro.__init__/__call__ + linear normal form of default indices",
+    "C07": "sibling equivalence by erasure (LoopContext vs AsyncLoopContext) + linear normal forms + protocol shape + skeleton rules",
+    "C08": "handler-coverage and guard-dominance rules over nodes.as_const and the compiler's fold sites",
+    "C09": "skeleton equivalence under erasure of the async decoration for every visitor and flag valuation + filter twin equivalence/forwarding",
+    "C10": "guard-dominance rules on the stream buffer + source-of-text rules on the entry points",
+    "C11": "lexer rule-table model + regex alternative order + guard truth table in visit_Output",
+    "C12": "sibling comparison of the end-tag rules (lexer rule-table model) + guard dominance in tokeniter + cache-key def-use",
+    "C13": "signature/table agreement + def-use of environment attributes in the lexer construction + memoisation ownership rule",
+    "C14": "regular-expression automata (NFA->DFA language inclusion against the Python literal grammar) + conversion pipeline allow-list",
+    "C15": "skeleton rules on output wrapping and run-time selectors + trust (escaping) flow over every Markup construction",
+    "C16": "skeleton rules on capture sites and run-time selectors",
+    "C17": "guard dominance in the sandbox accessors + who-may-getattr inventory + skeleton rule (no direct access on template values)",
+    "C18": "guard exactness in visit_Call + who-may-call rule on Context.call with def-use taint from context lookups",
+    "C19": "table simulation against the interpreter's container method sets + truth table + effect/alias flow analysis",
+    "C20": "table agreement between interceptable operators, compiler makers and fold refusal + override ownership rule",
+    "C21": "class-table resolution (aliases + MRO) compared with the documented operation table",
+    "C22": "twin equivalence by erasure / parameter forwarding + effect flow + linear normal forms",
+    "C23": "handler-coverage path rule + linear normal form of length expressions",
+    "C24": "trust (escaping) flow + replacement-chain and key-pattern rules",
+    "C25": "guard truth table of the cache-hit condition + closure shape rules",
+    "C26": "lock discipline (all accesses under the lock in mutating methods, aliases resolved) + typestate shape rules",
+    "C27": "CFG path rules (acceptance path condition, handler coverage, cleanup on every exceptional path) + def-use slice",
+    "C28": "taint flow from the template name to file sinks + sibling comparison",
+    "C29": "effect/alias flow + shared-state write inventory on the render path",
+    "C30": "local set-type inference + order-taint rule on iterations",
+    "C31": "skeleton comparison of visit_Template with/without defer_init + positional argument binding + namespace key agreement",
+    "C32": "skeleton inventory of context lookups + constant agreement + set comparison of reference node classes",
+    "C33": "truth table of the percent un-doubling vs formatting conditions + name-set agreement + sibling wrappers",
+    "C34": "guard-dominance case analysis of native_concat + hook balance + skeleton rule",
+    "C35": "event-order rule on emission-model paths (line marker before first expression) + writer/reader format agreement",
+    "C36": "pairing rule on async skeletons (named generator + try/finally aclose) + entry-point rules",
+    "C37": "shared-state write inventory + awaited check-then-set rule (sufficient condition for non-interference)",
+    "C38": "except-handler inventory with per-function allowed classes + re-raise shape rules",
+    "C39": "statement-order rules on tokeniter's line accounting + lexer rules shared with C12",
 }
+
+
+def _doc(pid: str) -> str | None:
+    path = os.path.join(HERE, "props", pid.lower() + ".py")
+    if not os.path.exists(path):
+        return None
+    with open(path, encoding="utf-8") as f:
+        try:
+            d = ast.get_docstring(ast.parse(f.read()))
+        except SyntaxError:
+            return None
+    return " ".join((d or "").split())
+
+
+PROPS = {}
+for _pid, _tech in TECHNIQUE.items():
+    _d = _doc(_pid)
+    if _d:
+        PROPS[_pid] = {"claimed": True, "text": _d, "technique": _tech, "note": _NOTE}
